@@ -460,6 +460,13 @@ def foreign_items(kinds, model):
             its.append(typedef("TypeLayout", [], path("LayoutInfo"), None, True))
         its.append(struct("ModuleHeader", [], [("layout", ptr(path("TypeLayout"), True)), ("version", prim("u32"))], [" What a module exports for a load-time layout check."], True))
         args.append(("header", ptr(path("ModuleHeader"), True)))
+    # a large number of plain user records (a header well beyond one pipe buffer of 64 KiB), reached through one table struct
+    if "bulk" in kinds:
+        nrec = 1200
+        for k in range(nrec):
+            its.append(struct("Rec%04d" % k, [], [("id", prim("u32")), ("value", prim("u64"))], None, True))
+        its.append(struct("RecTable", [], [("r%04d" % k, ptr(path("Rec%04d" % k), True)) for k in range(nrec)], [" Table of user records."], True))
+        args.append(("recs", ptr(path("RecTable"), True)))
     # one short function per planted type: every declaration stays below cbindgen's line_length (vertical wrapping is not modelled)
     if "func" in kinds:
         fns.append(function("render_frame", prim("u32"), [("frame_no", prim("u32")), ("flags", prim("u64"))], [" Unrelated exported function."], True))
